@@ -232,8 +232,8 @@ theorem C02_parse_item_roundtrip (c : Ctx) (s : Str) (q : Bool) (out : Str) (c' 
     for the walk `wc` of a CIF is parsed — nested frames allowed, accept-all policy — with return code 0, without a single
     report, into a CIF `equiv`alent to the original.  (Kept visible as the unrestricted statement.)
     PROVED: `C02_roundtrip_doc` below — the same conclusion for EVERY callback policy, with `equiv` made concrete (`backBlock`),
-    for every CIF whose characters, names and codes are valid (hypotheses `cifR`, `blocksN`, `containersL`; one level of save
-    frames, which is all the abstract documents of Spec/Grammar.lean express). -/
+    for every CIF whose characters, names and codes are valid (hypotheses `cifR`, `blocksN`, `containersL`; save frames nested to
+    any depth, `frameN`: a frame that holds frames asks for a parser whose max_frame_depth is not 1). -/
 def C02_roundtrip_doc_full (equiv : WCif → Cif → Prop) : Prop :=
   ∀ (wc : WCif) (out : Str) (o : Model.Parser.Opts), o.dia = .cif2 → o.maxFrameDepth < 0 → o.unfold = true → o.prem = true →
     o.notUtf8 = false → o.store = true →
@@ -242,8 +242,8 @@ def C02_roundtrip_doc_full (equiv : WCif → Cif → Prop) : Prop :=
     equiv wc (Model.Parser.parse o Model.Lexer.acceptAll [] out).cif
 
 open Lemmas.WriterChunks in
-/-- **C02_roundtrip_doc** — the whole-document round trip, CIF 2.0.  For every walk order `cif` (`WCif`: data blocks, one level
-    of save frames, the scalar loop, loops, values of every kind nested to any depth) that `cif_write` accepts in CIF 2.0 mode
+/-- **C02_roundtrip_doc** — the whole-document round trip, CIF 2.0.  For every walk order `cif` (`WCif`: data blocks, save frames
+    nested to any depth, the scalar loop, loops, values of every kind nested to any depth) that `cif_write` accepts in CIF 2.0 mode
     (`writeCif 0 cif = .ok out`), provided
       * `cifR`: the strings consist of characters CIF 2.0 allows (well-formed UTF-16), block / frame codes and data names are
         non-empty words of such characters, table entries are stored under the normalised form of their valid, pairwise
@@ -326,7 +326,8 @@ theorem C02_roundtrip_doc_instance :
     · intro f hf
       simp only [List.mem_singleton] at hf
       subst hf
-      refine ⟨_, _, rfl, hcode _ (by decide), ?_⟩
+      simp only [frameR, framesR, true_and]
+      refine ⟨hcode _ (by decide), ?_⟩
       intro l hl
       simp only [List.mem_singleton] at hl
       subst hl
@@ -364,7 +365,7 @@ theorem C02_roundtrip_doc_instance :
           refine ⟨?_, fun h => absurd h (by decide)⟩
           simp only [valueR, numR, numbOk, strOk]
           decide
-  · simp [C02Doc.sample, blocksN, framesN, loopsN, scalarOnce, scalarsN, seenScalars, isScalars]
+  · simp [C02Doc.sample, blocksN, framesN, frameN, wcode, loopsN, scalarOnce, scalarsN, seenScalars, isScalars]
     decide
   · have hok : (match writeCif 0 C02Doc.sample with | .ok _ => true | .error _ => false) = true := by decide +kernel
     cases h : writeCif 0 C02Doc.sample with
@@ -379,5 +380,63 @@ theorem C02_roundtrip_doc_sample (pol : Model.Lexer.Policy) :
   obtain ⟨hL, hR, hN, out, hw⟩ := C02_roundtrip_doc_instance
   obtain ⟨back, hp, hb⟩ := C02_roundtrip_doc C01parse.opts2 pol C02Doc.sample out rfl rfl rfl rfl (by decide) rfl hL hR hN hw
   exact ⟨out, back, hw, hp, hb⟩
+
+/-! ### nested save frames -/
+
+namespace C02Doc
+/-- a scalar loop with the one item `n` = the unquoted string `v` -/
+def scalar1 (n v : Str) : WLoop := { category := some [], header := [n], packets := [[(n, V.chr false v)]] }
+/-- a block whose save frame `f` holds the save frame `g`, which holds the save frame `h`; every container has an item -/
+def nested : WCif := [WContainer.mk (a!"b")
+    [WContainer.mk (a!"f") [WContainer.mk (a!"g") [WContainer.mk (a!"h") [] [scalar1 (a!"_x") (a!"3")]] [scalar1 (a!"_x") (a!"2")]]
+      [scalar1 (a!"_x") (a!"1")]]
+    [scalar1 (a!"_x") (a!"0")]]
+/-- gJ's option record with save frames nested to any depth -/
+def optsDeep : Model.Parser.Opts := { C01parse.opts2 with maxFrameDepth := -1 }
+end C02Doc
+
+open Lemmas.WriterChunks Lemmas.LexGlue in
+/-- `C02_roundtrip_doc` applies to a CIF with three levels of save frames (parser: `max_frame_depth` negative): under every
+    callback policy it is written, parsed without a report, and comes back frame in frame in frame -/
+theorem C02_roundtrip_doc_nested (pol : Model.Lexer.Policy) :
+    ∃ out back, writeCif 0 C02Doc.nested = .ok out
+      ∧ Model.Parser.parse C02Doc.optsDeep pol [] out = { rc := 0, log := [], cif := back } ∧ All2 backBlock C02Doc.nested back := by
+  have hcode : ∀ c : Str, (Tk.data c).ok .cif2 = true → codeR .cif2 c := fun _ h => h
+  have hname : ∀ n : Str, (Tk.name n).ok .cif2 = true → n.length ≤ LINE → nameR .cif2 n := fun _ h h' => ⟨h, h'⟩
+  have hsc : ∀ v : Str, valueR .cif2 id (V.chr false v) → ∀ l ∈ [C02Doc.scalar1 (a!"_x") v], loopR .cif2 id l := by
+    intro v hv l hl
+    simp only [List.mem_singleton] at hl
+    subst hl
+    unfold loopR
+    refine ⟨fun _ => ⟨_, rfl⟩, fun h => absurd h (by simp [C02Doc.scalar1, isScalars]), ?_⟩
+    intro p hp nv hnv
+    simp only [C02Doc.scalar1, List.mem_singleton] at hp
+    subst hp
+    simp only [List.mem_singleton] at hnv
+    subst hnv
+    exact ⟨hv, fun _ => hname (a!"_x") (by decide) (by decide)⟩
+  have hL : containersL C02Doc.nested := by
+    simp [C02Doc.nested, C02Doc.scalar1, containersL, containerL, codeL, loopL, headerL, itemsL, valueL, nameL, strOk, countChar32, LINE]
+  have hR : cifR .cif2 id C02Doc.nested := by
+    intro k hk
+    simp only [C02Doc.nested, List.mem_singleton] at hk
+    subst hk
+    refine ⟨_, _, _, rfl, hcode _ (by decide), ?_, hsc _ (by simp only [valueR]; decide)⟩
+    intro f hf
+    simp only [List.mem_singleton] at hf
+    subst hf
+    simp only [frameR, framesR, true_and, and_true]
+    exact ⟨hcode _ (by decide), ⟨hcode _ (by decide), ⟨hcode _ (by decide), hsc _ (by simp only [valueR]; decide)⟩,
+      hsc _ (by simp only [valueR]; decide)⟩, hsc _ (by simp only [valueR]; decide)⟩
+  have hN : blocksN C02Doc.optsDeep C02Doc.nested [] := by
+    simp [C02Doc.nested, C02Doc.scalar1, C02Doc.optsDeep, blocksN, framesN, frameN, wcode, loopsN, scalarOnce, scalarsN, seenScalars,
+      isScalars]
+    decide
+  have hok : (match writeCif 0 C02Doc.nested with | .ok _ => true | .error _ => false) = true := by decide +kernel
+  cases h : writeCif 0 C02Doc.nested with
+  | error e => rw [h] at hok; cases hok
+  | ok out =>
+    obtain ⟨back, hp, hb⟩ := C02_roundtrip_doc C02Doc.optsDeep pol C02Doc.nested out rfl rfl rfl rfl (by decide) rfl hL hR hN h
+    exact ⟨out, back, rfl, hp, hb⟩
 
 end CifModel
